@@ -22,8 +22,24 @@ GotResp(g) ==
 
 (* "a sequence of range queries answered through the results cache returns the same series   *)
 (* and samples as answering each query directly"                                              *)
-JudgeStep(in, q, g) ==
-    IF g.err # "" THEN {"answered"}          \* a failed query returns neither series nor samples
+(* Phase 2, querier faults: hist[i].fault = [n, k, code]: the n-th distinct downstream request of the   *)
+(* query fails its first k attempts with HTTP status `code`; in.retries = MaxRetries of the retry        *)
+(* middleware (documented: "retries requests if they fail with 500 or a non-HTTP error", at most        *)
+(* max-retries-per-request attempts); steps[i].ftrig = failures injected, steps[i].fatt = attempts the   *)
+(* faulted request saw.  A query may only fail if a fault was injected into it that the retries cannot   *)
+(* absorb; an answered query must be right whatever failed before (no duplicated or dropped steps, no   *)
+(* cache pollution by failed attempts); 4xx answers are not retried; attempts are bounded.              *)
+Attempts(m) == IF m < 1 THEN 1 ELSE m
+Is5xx(c) == c >= 500 /\ c < 600
+JudgeStep(in, q, st) ==
+    LET g == st.got
+        absorbable == Is5xx(q.fault.code) /\ q.fault.k < Attempts(in.retries)
+    IN
+    (IF st.ftrig > 0 /\ ~Is5xx(q.fault.code) /\ st.fatt # 1 THEN {"client-error-not-retried"} ELSE {})
+    \cup (IF st.ftrig > 0 /\ Is5xx(q.fault.code) /\ st.fatt > Attempts(in.retries) THEN {"retries-bounded"} ELSE {})
+    \cup
+    IF g.err # "" THEN (IF st.ftrig = 0 THEN {"answered"}          \* a failed query returns neither series nor samples
+                       ELSE IF absorbable THEN {"retried-to-success"} ELSE {})
     ELSE LET ref == Reference(in.world, [s |-> q.s, e |-> q.e, st |-> q.st], in.align)
              got == GotResp(g)
          IN (IF Cardinality(DOMAIN got) # Len(g.series) THEN {"each-series-once"} ELSE {})
@@ -32,7 +48,7 @@ JudgeStep(in, q, g) ==
             \cup (IF \E j \in DOMAIN g.series : \E i \in DOMAIN g.series[j].ts :
                         g.series[j].vs[i] # Val(g.series[j].k, g.series[j].ts[i], in.vunit)
                   THEN {"same-values"} ELSE {})
-JudgeRange(e) == UNION { JudgeStep(e.in, e.in.hist[i], e.steps[i].got) : i \in DOMAIN e.in.hist }
+JudgeRange(e) == UNION { JudgeStep(e.in, e.in.hist[i], e.steps[i]) : i \in DOMAIN e.in.hist }
 
 (* ---- phase 2: metadata histories (in.meta = TRUE): hist[i] = [kind, s, e], kind 0 instant query,     *)
 (* 1 label names, 2 label values, 3 series; steps[i].got = [err, ids] the series ids the answer names;  *)
@@ -73,7 +89,9 @@ MetaDriftFrom(e, i, cache) ==
             \/ { g.ids[j] : j \in DOMAIN g.ids } # d.resp
             \/ { e.steps[i].ext[j] : j \in DOMAIN e.steps[i].ext } # CacheRanges(d.cache)
             \/ MetaDriftFrom(e, i + 1, d.cache)
-Drift(e) == IF e.in.meta THEN MetaDriftFrom(e, 1, << >>) ELSE DriftFrom(e, 1, << >>)
+(* histories with an injected failure are not predicted (which sub-requests ran before the failure is not modelled) *)
+Faulty(e) == \E i \in DOMAIN e.steps : e.steps[i].ftrig > 0
+Drift(e) == IF e.in.meta THEN MetaDriftFrom(e, 1, << >>) ELSE (~Faulty(e) /\ DriftFrom(e, 1, << >>))
 
 VARIABLE l
 TraceInit == l = 1
